@@ -69,7 +69,7 @@ FAULT_KINDS = ['ENOENT', 'EACCES', 'EIO', 'BADUTF8', 'EPIPE', 'ENOSPC']
 
 
 def gen_scenario(rng, corp, with_fault):
-    rid = W.RENDERER_IDS[rng.randrange(len(W.RENDERER_IDS))]
+    rid = W.BUNDLED_IDS[rng.randrange(len(W.BUNDLED_IDS))]
     n_files = rng.choice([1, 1, 2, 2, 3, 5])
     texts = [gen_text(rng, corp) for _ in range(n_files)]
     if n_files > 1 and rng.random() < 0.3:
